@@ -120,7 +120,7 @@ def terms_facts(H, x):
         z3.ForAll([i], z3.Implies(z3.And(0 <= i, i < n),
                                   z3.And(el(i) != 0, H.nchild_t(el(i)) == 0,
                                          z3.Select(H.f["has_num"], el(i)),
-                                         tobool(WF(H, VRef(el(i)))),
+                                         tobool(WF(H, VRef(el(i)))), tobool(desc(H, x, VRef(el(i)))),
                                          T_idx(H, x, VRef(el(i))).t == i))),
         z3.ForAll([i], z3.Implies(z3.And(0 <= i, i + 1 < n),
                                   H.num(VRef(el(i))).t < H.num(VRef(el(i + 1))).t)),
@@ -189,6 +189,39 @@ def wf_theory(H):
     ))
 
 
+def wf_theory_tokens(H):
+    """second part of the meaning of 'well formed' (used where tokens are enumerated or counted):
+    a rank decreasing towards the children; tokens (childless nodes) carry a number; distinct tokens of one tree
+    carry distinct numbers; NL / SNL count the tokens below a node / below its first k stored children"""
+    from pyvc.sym import qforall
+    x, y, k, t = z3.Int(fresh_name("tx")), z3.Int(fresh_name("ty")), z3.Int(fresh_name("tk")), z3.Int(fresh_name("tt"))
+    wf = lambda r: tobool(WF(H, VRef(r)))
+    hg = lambda r: H.hgt(VRef(r)).t
+    nl = lambda r: H.nleaves(VRef(r)).t
+    snl = lambda r, q: H.snl(VRef(r), q).t
+    anc0 = lambda r: H.anc(VRef(r), VInt(0)).t
+    return VBool(z3.And(
+        qforall([x], z3.Implies(wf(x), z3.And(
+            hg(x) >= 0, nl(x) >= 1,
+            z3.Implies(H.nchild_t(x) == 0, z3.And(z3.Select(H.f["has_num"], x), nl(x) == 1)),
+            z3.Implies(H.nchild_t(x) > 0, nl(x) == snl(x, H.nchild_t(x))),
+            snl(x, 0) == 0)), [wf(x)]),
+        qforall([x, k], z3.Implies(z3.And(wf(x), 0 <= k, k < H.nchild_t(x)), z3.And(
+            hg(H.child_t(x, k)) < hg(x), snl(x, k) >= 0,
+            snl(x, k + 1) == snl(x, k) + nl(H.child_t(x, k)))), [[wf(x), H.child_t(x, k)]]),
+        # the least tokens of two different children of one node carry different numbers
+        qforall([x, k, t], z3.Implies(z3.And(wf(x), 0 <= k, k < t, t < H.nchild_t(x)),
+                                      H.num(H.terms(VRef(H.child_t(x, k))).get(0)).t !=
+                                      H.num(H.terms(VRef(H.child_t(x, t))).get(0)).t),
+                [[wf(x), H.child_t(x, k), H.child_t(x, t)]]),
+        # distinct tokens below a common node carry distinct numbers
+        qforall([t, x, y], z3.Implies(z3.And(wf(t), wf(x), wf(y), H.nchild_t(x) == 0, H.nchild_t(y) == 0, x != y,
+                                             tobool(desc(H, VRef(t), VRef(x))), tobool(desc(H, VRef(t), VRef(y)))),
+                                      z3.Select(H.f["val_num"], x) != z3.Select(H.f["val_num"], y)),
+                [[wf(t), H.anc(VRef(x), H.depth(VRef(t))).t, H.anc(VRef(y), H.depth(VRef(t))).t]]),
+    ))
+
+
 def desc(H, n, x):
     """n dominates x (reflexive): depth n <= depth x and anc(x, depth n) == n"""
     return VBool(z3.And(H.depth(n).t <= H.depth(x).t, H.anc(x, H.depth(n)).t == n.t))
@@ -234,8 +267,9 @@ def add_common(reg):
         returns=lambda S, tree: S.H.terms(tree),
         ensures={"T_facts": lambda S, tree, result: terms_facts(S.H, tree)},
         result_type=TList(REF), assumed=True,
-        note="terminals(t) == T(t): the leaves under t, strictly increasing in num; "
-             "re-checked on all trees n<=6 by bounded/c19.py"))
+        note="terminals(t) == T(t).  The function itself is VERIFIED under C19 against the characterisation F "
+             "(only tokens below t, globally strictly increasing in num, exactly NL(t) of them); naming that unique list "
+             "T(t) is the sorted-list uniqueness lemma (DESIGN 3.9); also re-checked on all trees n<=6 by bounded/c19.py"))
     reg.add(Contract(
         target="trees.trees.preorder", prop="C19", args=dict(tree=REF),
         requires=lambda S, tree: WF(S.H, tree) & (tree != None),
